@@ -88,7 +88,14 @@ def generate_source_code(docstring, parsed):
         refs = [Ref(x.name) for x in ignored]
 
         if super_has_ignore:
-            refs.append(Ref('_super_ctx._ignored'))
+            # Also skip everything that the parent grammar ignores. The parent's
+            # rule is a Skip expression, which always succeeds.
+            super_ignored = Ref('super._ignored')
+            super_ignored._resolved = '_super_ctx.' + ex.implementation_name('_ignored')
+            super_ignored.is_static = True
+            super_ignored.always_succeeds = lambda: True
+            super_ignored.can_partially_succeed = lambda: False
+            refs.append(super_ignored)
 
         rules.append(ex.Rule('_ignored', None, ex.Skip(*refs), 'ignored'))
 
